@@ -4,6 +4,7 @@ The sidecar never contains a body of repository code: contracts only. Functions 
 real source by (file, class, function name) and re-read from /repo on every run.
 """
 import z3
+from fractions import Fraction
 from . import sym
 from .sym import (T, TInt, TNum, TNumK, TBool, TKey, TVal, TFn, TNone, TDict, TSet, TList, TTuple, TObj,
                   SNum, SBool, SKey, SVal, SFn, SDict, SSet, SList, STuple, SObj, NONE)
@@ -209,11 +210,35 @@ class Ctx:
 
 
 # helpers usable in clauses -------------------------------------------------------------------------
-def implies(a, b): return z3.Implies(a, b)
-def land(*xs): return z3.And(*xs) if xs else z3.BoolVal(True)
-def lor(*xs): return z3.Or(*xs) if xs else z3.BoolVal(False)
-def lnot(a): return z3.Not(a)
-def ite(c, a, b): return z3.If(c, a, b)
+def _conc(*xs):
+    """all arguments are concrete python values (dual evaluation of clauses during replay)"""
+    return all(isinstance(x, (bool, int, float, Fraction)) for x in xs)
+
+
+def implies(a, b):
+    return ((not a) or b) if _conc(a, b) else z3.Implies(a, b)
+
+
+def land(*xs):
+    if _conc(*xs):
+        return all(xs)
+    return z3.And(*xs) if xs else z3.BoolVal(True)
+
+
+def lor(*xs):
+    if _conc(*xs):
+        return any(xs)
+    return z3.Or(*xs) if xs else z3.BoolVal(False)
+
+
+def lnot(a):
+    return (not a) if _conc(a) else z3.Not(a)
+
+
+def ite(c, a, b):
+    if isinstance(c, bool):
+        return a if c else b
+    return z3.If(c, a, b)
 
 
 def forall_key(f, sort=sym.KeyS, pats=None):
@@ -246,6 +271,6 @@ def exists_key(f, sort=sym.KeyS):
 
 def R(x):
     """to real"""
-    if isinstance(x, (int, float)):
-        return z3.RealVal(x)
+    if isinstance(x, (int, float, Fraction)):
+        return Fraction(x) if not isinstance(x, float) else x
     return z3.ToReal(x) if x.sort() == z3.IntSort() else x
